@@ -187,19 +187,22 @@ def theorem_names(prop):
 
 
 def lean_files_for(prop):
-    fs = []
-    for sub in ["Model", "Spec", "Proof", "Props", "Gen", "Prim"]:
-        d = os.path.join(LEAN, "FranzVerif", sub)
-        if os.path.isdir(d):
-            for f in os.listdir(d):
-                if f.endswith(".lean"):
-                    fs.append(os.path.join(d, f))
-    return fs
+    """The Lean source files the property's Props module depends on (transitive `import FranzVerif.*`)."""
+    seen, todo = [], [prop.props_module]
+    while todo:
+        m = todo.pop()
+        f = os.path.join(LEAN, m.replace(".", "/") + ".lean")
+        if f in seen or not os.path.exists(f):
+            continue
+        seen.append(f)
+        for imp in re.findall(r"^import\s+(FranzVerif\.\S+)", open(f).read(), flags=re.M):
+            todo.append(imp)
+    return seen
 
 
-def forbidden_hits():
+def forbidden_hits(prop):
     hits = []
-    for f in lean_files_for(None):
+    for f in lean_files_for(prop):
         src = open(f).read()
         src = re.sub(r"/-.*?-/", lambda m: "\n" * m.group(0).count("\n"), src, flags=re.S)
         for i, line in enumerate(src.splitlines(), 1):
@@ -238,7 +241,7 @@ def obligations(prop, tier):
             failures.append(("theorem %s depends on non-standard axioms" % n, ",".join(axioms[n])))
         else:
             discharged.append(n)
-    hits = forbidden_hits()
+    hits = forbidden_hits(prop)
     if hits:
         failures.append(("forbidden tokens in Lean sources", "\n".join(hits[:20])))
     if tier == "thorough" and not failures:
